@@ -48,6 +48,12 @@ PwbFields(p) ==
     waves |-> [ro \in 1..79 |-> IF \E k \in 1..Len(chans) : chans[k] = ro
                                THEN WaveOf(p, PosIn(chans, ro)) ELSE Absent] ]
 
+\* ---- firmware data-suppression baseline of a PWB waveform (beyond the listed properties) ---------------
+\* needs at least 68 samples; mean of samples 4..67 (0-based), integer division truncating toward zero
+TruncDiv(x, d) == IF x >= 0 THEN x \div d ELSE 0 - ((0 - x) \div d)
+SuppressionBaselineOk(w) == Len(w) >= 68
+SuppressionBaseline(w) == TruncDiv(FoldLeft(LAMBDA a, i : a + w[i], 0, [i \in 1..64 |-> i + 4]), 64)
+
 MaskBytes(list) ==
   [by \in 1..10 |-> LET S == {list[k] : k \in 1..Len(list)}
                         bitv(j) == IF (8 * (by - 1) + j + 1) \in S THEN 2 ^ j ELSE 0
